@@ -42,6 +42,85 @@ def validate_batches(work, ev, batches, tag):
     return bad
 
 
+def meta_writer_stage(work, rep, ev, tier):
+    """spec/MetaWriter.tla: append / flush / write_to_file sequences on the real metadata writer (both modes); every position get_position()
+    hands out names a block start + an offset inside the block, and the real metadata reader finds the appended bytes exactly there; no
+    stored block exceeds its content or 8 KiB."""
+    M = 4 if tier == "quick" else 5
+    INV = ["PositionsResolve", "BlocksFit", "OrderKept"]
+    cfg = work + "/mw.cfg"
+    cases = []
+    for keep in (False, True):
+        C = {"Cap": 8, "MaxOps": M, "Emit": False, "Keep": keep, "LazyFlushWhenFull": False, "EmptyFlushEmitsBlock": False}
+        write_cfg(cfg, spec="Spec", constants=C, invariants=INV, deadlock=False)
+        r = run_tlc("MetaWriter", cfg, workers=8, timeout=1500, heap="8g")
+        ev.tlc(r, "MetaWriter keep=%s MaxOps=%d" % (keep, M))
+        if not r["ok"]:
+            print("MODEL-FAILURE: MetaWriter violates %s" % r["violated"])
+            return None
+        for dev, want in (("LazyFlushWhenFull", "PositionsResolve"), ("EmptyFlushEmitsBlock", "BlocksFit")):
+            write_cfg(cfg, spec="Spec", constants=dict(C, **{dev: True}), invariants=INV, deadlock=False)
+            r = run_tlc("MetaWriter", cfg, workers=4, timeout=600)
+            ev.tlc(r, "dev MetaWriter %s keep=%s" % (dev, keep))
+            if r["violated"] != want:
+                print("SELF-CHECK-FAILED: MetaWriter deviation %s: %s" % (dev, r["violated"]))
+                return None
+        write_cfg(cfg, spec="Spec", constants=dict(C, Emit=True), invariants=["EmitOK"], deadlock=False)
+        r = run_tlc("MetaWriter", cfg, workers=8, timeout=1500, heap="8g")
+        got = bpbind.parse_emitted(r["out"])
+        if len(got) != (7 if keep else 6) ** M:
+            print("SELF-CHECK-FAILED: MetaWriter emitted %d call sequences (keep=%s)" % (len(got), keep))
+            return None
+        cases += [(keep, c) for c in got]
+    binp = work + "/replay_metawr"
+    if not build.compile_harness(VERIF + "/harness/replay_metawr.c", binp, variant="asan"):
+        raise RuntimeError("harness build failed")
+
+    def do(i):
+        keep, c = cases[i]
+        prog = [("A%d" % e[1]) if e[0] == "A" else e[0] for e in c["log"]]
+        f = "%s/mw%d.bin" % (work, i)
+        try:
+            q = subprocess.run([binp, f, "1" if keep else "0"] + prog, capture_output=True, text=True, timeout=60, env=dict(os.environ, ASAN_OPTIONS="detect_leaks=1"))
+        finally:
+            if os.path.exists(f):
+                os.unlink(f)
+        return i, prog, q.returncode, q.stdout, q.stderr
+    n, seen, drift = 0, set(), []
+    with ThreadPoolExecutor(16) as ex:
+        for i, prog, rc, out, err in ex.map(do, range(len(cases))):
+            n += 1
+            keep, c = cases[i]
+            what = None
+            if "ERROR: AddressSanitizer" in err or "LeakSanitizer" in err:
+                what = ("metawriter-memory", err[err.find("ERROR:"):][:160])
+            elif rc != 0:
+                what = ("metawriter-crash", "exit %d %s" % (rc, err[-100:]))
+            else:
+                real = json.loads(out.strip().split("\n")[-1])
+                if "err" in real:
+                    what = ("metawriter-error", "a call fails with %s" % real["err"])
+                elif not real["stored_ok"]:
+                    what = ("meta-block-size", "a stored metadata block is empty, larger than its content or than 8 KiB, or the block chain does not end at the end of the file (blocks %s)" % real["blocks"])
+                elif any(not a["ok"] or a["blk"] < 0 or not a["cells"] or a["off"] >= 8 for a in real["appends"]):
+                    bad = next(a for a in real["appends"] if not a["ok"] or a["blk"] < 0 or not a["cells"] or a["off"] >= 8)
+                    what = ("meta-position-dangling", "the position handed out before an append of %d KiB (block #%d, offset %d KiB) does not lead the metadata reader to those bytes"
+                            % (bad["n"], bad["blk"], bad["off"]))
+                else:
+                    wantpos = [[a["pos"][0], a["pos"][1], a["n"]] for a in c["appends"]]
+                    gotpos = [[a["blk"], a["off"], a["n"]] for a in real["appends"]]
+                    if real["blocks"] != list(c["blocks"]) or real["infile"] != c["infile"] or gotpos != wantpos:
+                        drift.append({"keep": keep, "calls": prog, "real": real, "model": {"blocks": c["blocks"], "infile": c["infile"], "pos": wantpos}})
+            if what and what[0] not in seen:
+                seen.add(what[0])
+                rep.violation(what[0], "metadata writer (%s), calls %s: %s" % ("KEEP_IN_MEMORY" if keep else "direct", " ".join(prog), what[1]), data={"keep": keep, "calls": prog})
+    if drift:
+        print("SPEC-DRIFT (no alarm): %d call sequences leave another block structure than MetaWriter.tla, e.g. %s" % (len(drift), json.dumps(drift[0])[:400]))
+    ev.set("meta_writer_sequences_replayed", n)
+    ev.set("meta_writer_drift", len(drift))
+    return n
+
+
 def inode_form_stage(work, rep, ev, tier, rng):
     """spec/InodeForm.tla: the basic / extended form of a file inode under every sequence of <= 4 (5) calls of the inode helpers
     and the direct field updates of the block processor and the tree serialiser.  R: every emitted program on the real
@@ -410,6 +489,11 @@ def run(tier):
     if dn is None:
         ev.write()
         return 2
+    mn = meta_writer_stage(work, rep, ev, tier)
+    if mn is None:
+        ev.write()
+        return 2
+    dn += mn
     ev.set("evaluations", len(items) + fn + dn)
     ev.set("distinct_nontrivial", len({l for l, _ in items}))
     ev.set("events_validated", nev)
